@@ -109,13 +109,12 @@ def check(ctx):
     from ..smallstep import Machine, Opaque as SOpaque, render
     loops = [n for n in own_nodes(fd.node) if isinstance(n, ast.For) and any(
         isinstance(t, ast.Subscript) and isinstance(t.ctx, ast.Store) and norm(t.value) == res for t in ast.walk(n))]
-    if len(loops) != 1 or not (isinstance(loops[0].iter, ast.Call) and norm(loops[0].iter.func) == "enumerate"
-                               and isinstance(loops[0].target, ast.Tuple) and len(loops[0].target.elts) == 2
-                               and all(isinstance(x, ast.Name) for x in loops[0].target.elts)):
-        raise AnalysisError("get_dual_edge_lengths no longer fills its result in one `for i, edge in enumerate(edges)` loop: "
-                            "the rule for one / two incident triangles cannot be read off this code shape")
-    lp = loops[0]
-    ivar, evar = (x.id for x in lp.target.elts)
+    whole = len(loops) != 1 or not (isinstance(loops[0].iter, ast.Call) and norm(loops[0].iter.func) == "enumerate"
+                                    and isinstance(loops[0].target, ast.Tuple) and len(loops[0].target.elts) == 2
+                                    and all(isinstance(x, ast.Name) for x in loops[0].target.elts))
+    if not whole:
+        lp = loops[0]
+        ivar, evar = (x.id for x in lp.target.elts)
     by = {}
     for count in (1, 2):
         tris = [SOpaque(f"t{k}") for k in range(count)]
@@ -124,9 +123,40 @@ def check(ctx):
             if "[frozenset(" in text:          # the triangles incident to this edge
                 return list(tris)
             return NotImplemented
-        m = Machine({ivar: SOpaque("i"), evar: SOpaque("edge")}, attrs, lambda *a: NotImplemented, fuel=8)
-        m.run(lp.body)
-        st = [(b_, i_, v_) for b_, i_, v_ in m.stores if b_ == res]
+        if not whole:
+            m = Machine({ivar: SOpaque("i"), evar: SOpaque("edge")}, attrs, lambda *a: NotImplemented, fuel=8)
+            m.run(lp.body)
+        else:
+            # the result is not filled by one plain loop (helpers, a generator of end points ...): the whole function is followed for
+            # a mesh with one edge; loops over other opaque sequences (the adjacency entries) contribute nothing to that edge
+            from ..smallstep import module_constants as _mc2
+            params_ = [a_.arg for a_ in fd.node.args.args]
+            if "edges" not in params_:
+                raise AnalysisError(f"get_dual_edge_lengths takes {params_}")
+
+            class _M(Machine):
+                def iterate(self, v, node):
+                    if isinstance(v, SOpaque):
+                        if v.text == "edges":
+                            return [SOpaque("edge")]
+                        if v.parts and v.parts[0] == "call" and v.parts[1] == "enumerate" and v.parts[2] and v.parts[2][0] == SOpaque("edges"):
+                            return [(SOpaque("i"), SOpaque("edge"))]
+                        return []
+                    return super().iterate(v, node)
+            env_ = dict(_mc2(fd.module.tree))
+            env_.update({p_: SOpaque(p_) for p_ in params_})
+            m = _M(env_, attrs, lambda *a: NotImplemented, fuel=8, undecided=lambda t_: None)
+            try:
+                kind_, _ = m.run_function(fd.node)
+            except AnalysisError as e_:
+                raise AnalysisError(f"get_dual_edge_lengths does not fill its result in one `for i, edge in enumerate(edges)` loop and cannot be "
+                                    f"followed as a whole either: {e_}")
+            if kind_ != "return":
+                raise AnalysisError("get_dual_edge_lengths raises in the model for a mesh with one edge")
+        res_texts = {res} | ({render(m.env[res])} if whole and res in m.env else set())
+        st = [(b_, i_, v_) for b_, i_, v_ in m.stores if b_ in res_texts]
+        if whole and not st:
+            raise AnalysisError("get_dual_edge_lengths followed as a whole stores nothing into its result in the model")
         desc = None
         if len(st) == 1 and st[0][1] == SOpaque("i"):
             v = st[0][2]
@@ -209,31 +239,73 @@ def cell_area_signs(ctx):
                         stores.append((n, _elem(t, n.value, x)))
         elif isinstance(n, ast.AugAssign) and isinstance(n.target, ast.Subscript) and norm(n.target.value) == res:
             stores.append((n, n.value))
-    if len(stores) < 2:
-        raise AnalysisError(f"expected >=2 stores into the cell-area array, found {len(stores)}")
-    defs = {}
+    if len(stores) < 1:
+        raise AnalysisError(f"no store into the cell-area array found")
+
+    def _position(target, want):
+        """index of the element of a tuple target that holds `want` (None: not a tuple target)"""
+        if isinstance(target, (ast.Tuple, ast.List)):
+            for i, x in enumerate(target.elts):
+                if x is want or any(y is want for y in ast.walk(x)):
+                    return i
+        return None
+    nested = {d.name: d for d in fn.body if isinstance(d, ast.FunctionDef)}
+    from ..dataflow import possible_callees
+
+    def defs_of(scope):
+        defs = {}
+        for n in own_nodes(scope):
+            if isinstance(n, ast.Assign):
+                for t in n.targets:
+                    for x in ast.walk(t):
+                        if isinstance(x, ast.Name) and isinstance(x.ctx, ast.Store):
+                            defs.setdefault(x.id, []).append((n, _elem(t, n.value, x), _position(t, x)))
+            elif isinstance(n, ast.AugAssign) and isinstance(n.target, ast.Name):
+                defs.setdefault(n.target.id, []).append((n, n.value, None))
+        return defs
+    contributions = []    # (statement, call expression or leaf, scope) reaching the area array arithmetically
+    store_pos = []
     for n in own_nodes(fn):
         if isinstance(n, ast.Assign):
             for t in n.targets:
                 for x in ast.walk(t):
-                    if isinstance(x, ast.Name) and isinstance(x.ctx, ast.Store):
-                        defs.setdefault(x.id, []).append((n, _elem(t, n.value, x)))
-        elif isinstance(n, ast.AugAssign) and isinstance(n.target, ast.Name):
-            defs.setdefault(n.target.id, []).append((n, n.value))
-    contributions = []    # (statement, call expression or leaf) reaching the area array arithmetically
+                    if isinstance(x, ast.Subscript) and norm(x.value) == res and isinstance(x.ctx, ast.Store):
+                        store_pos.append((n, _elem(t, n.value, x), _position(t, x), fn))
+        elif isinstance(n, ast.AugAssign) and isinstance(n.target, ast.Subscript) and norm(n.target.value) == res:
+            store_pos.append((n, n.value, None, fn))
     seen_names = set()
-    todo = list(stores)
+    followed = set()
+    todo = list(store_pos)
     while todo:
-        st, e = todo.pop()
+        st, e, pos, scope = todo.pop()
+        defs = defs_of(scope)
 
-        def visit(x, st=st):
+        def visit(x, st=st, pos=pos, scope=scope, defs=defs):
             if isinstance(x, ast.Call):
-                contributions.append((st, x))
+                # a call of a nested function of this file's function (directly or through a local that holds one of several):
+                # what it returns - the element that lands in the area - is followed inside it
+                callees = [c_ for c_ in possible_callees(fn, x) if c_ in nested] if scope is fn else \
+                    ([x.func.id] if isinstance(x.func, ast.Name) and x.func.id in nested else [])
+                if callees and len(callees) == len(possible_callees(fn, x) if scope is fn else callees):
+                    for c_ in callees:
+                        if (c_, pos) in followed:
+                            continue
+                        followed.add((c_, pos))
+                        for r in own_nodes(nested[c_]):
+                            if isinstance(r, ast.Return) and r.value is not None:
+                                rv = r.value
+                                if pos is not None and isinstance(rv, ast.Tuple) and len(rv.elts) > pos:
+                                    rv = rv.elts[pos]
+                                todo.append((r, rv, None, nested[c_]))
+                    return
+                contributions.append((st, x, scope))
                 return                          # what goes INTO a call is judged with the call
             if isinstance(x, ast.Name) and isinstance(x.ctx, ast.Load):
-                if x.id not in seen_names:
-                    seen_names.add(x.id)
-                    todo.extend(defs.get(x.id, []))
+                if (id(scope), x.id) not in seen_names:
+                    seen_names.add((id(scope), x.id))
+                    todo.extend((a_, b_, c_, scope) for a_, b_, c_ in defs.get(x.id, []))
+                    if scope is not fn and x.id not in defs:          # a free variable of the nested function: defined in the enclosing one
+                        todo.extend((a_, b_, c_, fn) for a_, b_, c_ in defs_of(fn).get(x.id, []))
                 return
             if isinstance(x, ast.Subscript):
                 visit(x.value)                  # the index does not contribute a value
@@ -241,10 +313,12 @@ def cell_area_signs(ctx):
             for c in ast.iter_child_nodes(x):
                 visit(c)
         visit(e)
-    ctx.note("area_contributions", sorted({norm(c.func) for _, c in contributions}))
+    if not contributions:
+        raise AnalysisError("no area primitive reaches the cell-area array in the slice")
+    ctx.note("area_contributions", sorted({norm(c.func) for _, c, _ in contributions}))
     bad = []
-    for st, c in contributions:
-        e = expand(fn, c)
+    for st, c, scope in contributions:
+        e = expand(scope, c)
         for c2 in ast.walk(e):
             if isinstance(c2, ast.Call):
                 nm = norm(c2.func).split(".")[-1]
